@@ -385,7 +385,8 @@ func max(a, b int) int {
 }
 
 func run(c *core.Ctx) {
-	nMem := c.Scale(4000, 80000)
+	runConcurrent(c)
+	nMem := c.Scale(4000, 400000)
 	for idx := 0; idx < nMem; idx++ {
 		if !c.Mine(idx) {
 			continue
@@ -396,7 +397,7 @@ func run(c *core.Ctx) {
 		}
 		runMem(c, id, idx, genMem(c, idx))
 	}
-	nTCP := c.Scale(64, 3200)
+	nTCP := c.Scale(64, 6400)
 	for idx := 0; idx < nTCP; idx++ {
 		if !c.Mine(idx) {
 			continue
